@@ -1,6 +1,7 @@
 import PhyloModel.Arena.Traverse
 import PhyloModel.Arena.QRLemmas
 import PhyloModel.Arena.LevelFacts
+import PhyloModel.Arena.Inorder
 /-! # C10 — traversals and subtree listings enumerate exactly the subtree, in order
 
 `Rep a i t` says that arena slot `i` represents the rose tree `t` (ids at the nodes, children in child-list
@@ -96,6 +97,20 @@ theorem levelorder_exact (a : Arena) (hinv : Inv a) (i : Nat) (hl : live a i) :
 theorem fuel_suffices (a : Arena) (hinv : Inv a) (i : Nat) (hl : live a i) :
     ∃ t, Rep a i t ∧ szR t ≤ a.size ∧ height t ≤ fuelOf a ∧ szR t ≤ fuelOf a :=
   rep_total hinv i hl
+
+/-- **in-order**: on any arena satisfying the invariant and any live start node the executable in-order is
+    the rose-level in-order of the represented tree — left subtree, then the node, then the right subtree, a
+    single child counting as a left child (the three defining equations) — which lists exactly the nodes
+    pre-order lists; a node with more than two children anywhere below the start node is refused -/
+theorem inorder_exact (a : Arena) (hinv : Inv a) (i : Nat) (hl : live a i) :
+    ∃ t, Rep a i t ∧ inorder a i = inoQ t ∧ (∀ l, ino t = some l → l.Perm (pre t)) ∧
+      (∀ j, ino (.node j []) = some [j]) ∧
+      (∀ j k, ino (.node j [k]) = (ino k).map (· ++ [j])) ∧
+      (∀ j k1 k2, ino (.node j [k1, k2]) = (ino k1).bind fun x => (ino k2).map fun y => x ++ [j] ++ y) ∧
+      (∀ j k1 k2 k3 ks, ino (.node j (k1 :: k2 :: k3 :: ks)) = none) := by
+  obtain ⟨t, ht, he⟩ := inorder_closed hinv i hl
+  exact ⟨t, ht, he, ino_perm t, fun j => by rw [ino], fun j k => by rw [ino], fun j k1 k2 => by rw [ino],
+    fun j k1 k2 k3 ks => by rw [ino]⟩
 
 /-- non-vacuity: `((1,2)0,(4)3)` laid out with an unused slot -/
 example : (LV.bfsD 10 [(toLV (.node 0 [.node 1 [.node 2 [], .node 3 []], .node 5 [.node 6 []]]), 0)]).map (·.1)
